@@ -296,6 +296,9 @@ func (fr *aFrame) binop(x *ssa.BinOp) aVal {
 			}
 		}
 		sa, sb := aShow(a), aShow(b)
+		if sa == "nil" && sb == "nil" && (x.Op == token.EQL || x.Op == token.NEQ) {
+			return aBool(x.Op == token.EQL)
+		}
 		if e.order != nil {
 			if c, ok := e.order[[2]string{sa, sb}]; ok {
 				return aBool(cmpOrder(x.Op, c))
